@@ -279,6 +279,9 @@ def handle(cmd, args):
     r = py_mm.handle(cmd, args)
     if r is not None:
         return r
+    if cmd == 'lemma-real':
+        from harness.py import py_lemma
+        return py_lemma.handle(cmd, args)
     if cmd in ('kconv', 'ktrace', 'kmodule'):
         from harness.py import py_kore
         return py_kore.handle(cmd, args)
